@@ -193,7 +193,16 @@ func runBin(bin string, env []string, timeout time.Duration, extra ...string) pr
 		if !viol {
 			// the binary failed but no check recorded why
 			if strings.Contains(pr.output, "WARNING: DATA RACE") {
-				pr.err = "data race reported"
+				// the race detector fails the test after the check returned: the case that was
+				// running is the last checkpoint
+				v := hx.Violation{Check: "race", Case: json.RawMessage(`"no checkpoint"`), Error: "data race reported by the race detector:\n" + raceExcerpt(pr.output)}
+				if data, err := os.ReadFile(filepath.Join(out, "checkpoint.json")); err == nil {
+					var rf hx.ReplayFile
+					if json.Unmarshal(data, &rf) == nil {
+						v.Check, v.Case = rf.Check, rf.Case
+					}
+				}
+				pr.results = append(pr.results, hx.Result{Violations: []hx.Violation{v}})
 			} else {
 				pr.err = "test process failed: " + runErr.Error()
 			}
@@ -202,6 +211,19 @@ func runBin(bin string, env []string, timeout time.Duration, extra ...string) pr
 		pr.err = "test process wrote no result"
 	}
 	return pr
+}
+
+func raceExcerpt(s string) string {
+	i := strings.Index(s, "WARNING: DATA RACE")
+	if i < 0 {
+		return ""
+	}
+	e := s[i:]
+	lines := strings.Split(e, "\n")
+	if len(lines) > 30 {
+		lines = lines[:30]
+	}
+	return strings.Join(lines, "\n")
 }
 
 func tail(s string, n int) string {
